@@ -39,7 +39,25 @@ def rwlock(R, prog):
                    require=lambda st, ev: an.has_lock(st, 'this->mtx'),
                    key_fn=lambda ev, fn=fn: '%s.K3:%s:state' % (P, fn),
                    describe=lambda ev: 'rwlock::state accessed under this->mtx', min_sites=2, what='state access')
+        if fn.endswith('::unlock'):
+            # a queued waiter is admitted according to the mode bit it carries: every wake-up is justified by a POSITIVE test of RLOCK or WLOCK
+            K.check_at(R, P + '.K6', G, res, lambda ev: ev.kind == 'call' and (ev.callee() or '').split('::')[-1] in ('notify_one', 'notify_all'),
+                       require=lambda st, ev: any(re.match(r'^G:\(.*rwlock_mark & (4096|8192)\)=T$', x) for x in st),
+                       key_fn=lambda ev: P + '.K6:photon::rwlock::unlock:admit-by-the-mode-bit-the-waiter-carries',
+                       describe=lambda ev: 'the head waiter is woken only after its mark tested positive for RLOCK (0x1000) or WLOCK (0x2000)', min_sites=2, what='cvar.notify_one')
         if fn.endswith('::lock'):
+            # the mark carried while queued has exactly the requested mode bit: both mode bits are cleared before the mode is set
+            # (the field shares a union with other per-thread words, so stale bits are possible)
+            def clears_mode_bits(ev):
+                if ev.kind == 'binop' and ev.e['op'] in ('&=', '&'):
+                    c = ev.f.const(ev.e['r'])
+                    return c is not None and (c & 0x3000) == 0
+                return False
+            res_m = an.run(G, [an.SeenTracker([('cleared', clears_mode_bits)])])
+            K.check_at(R, P + '.K8', G, res_m, lambda ev: mark_w(ev) and ev.depth == 0,
+                       require=lambda st, ev: 'S:cleared' in st,
+                       key_fn=lambda ev: P + '.K8:photon::rwlock::lock:mode-bits-cleared-before-the-mode-is-set',
+                       describe=lambda ev: 'rwlock_mark is published for the wait only after RLOCK|WLOCK were masked out of it', min_sites=1, what='rwlock_mark write')
             K.check_at(R, P + '.K6', G, res, state_write,
                        require=lambda st, ev: any(re.match(r'^G:\(\w+ & this->state\)=F$', x) or re.match(r'^G:\(this->state & \w+\)=F$', x) for x in st),
                        key_fn=lambda ev: P + '.K6:photon::rwlock::lock:state-update-after-conflict-test',
@@ -134,11 +152,12 @@ def qrw(R, prog):
                 R.violated(P + '.K6', key, f.id, ev.loc(), 'unique CAS is %s -> %s, expected 0 -> -1' % (expv, desv))
     # try_wake contract
     n = 0
-    for f in K.callers_of(prog, 'photon::qrwlock::try_wake'):
+    unlockers = [prog.find('photon::qrwlock::__unlock_unique'), prog.find('photon::qrwlock::__unlock_shared')]
+    for f in unlockers + [g for g in K.callers_of(prog, 'photon::qrwlock::try_wake') if g not in unlockers]:
         G = K.build_f(R, prog, f)
         wr = lambda ev: (K.written_member(ev) or ('',))[0] == LS
         res = an.run(G, [an.LockTracker(), an.GuardTracker(lambda k: True), an.SeenTracker([('release', wr), ('wake', lambda ev: ev.kind == 'call' and ev.callee() == 'photon::qrwlock::try_wake')])])
-        n += K.k2_requires_lock(R, P + '.K2', G, res, 'photon::qrwlock::try_wake', lock_of=lambda ev: 'this->spin', min_sites=1)
+        n += K.k2_requires_lock(R, P + '.K2', G, res, 'photon::qrwlock::try_wake', lock_of=lambda ev: 'this->spin', min_sites=0)
         K.check_at(R, P + '.K8', G, res, lambda ev: ev.kind == 'call' and ev.callee() == 'photon::qrwlock::try_wake',
                    require=lambda st, ev: 'S:release' in st,
                    key_fn=lambda ev, f=f: '%s.K8:%s:wake-after-release' % (P, f.nname),
@@ -154,8 +173,8 @@ def qrw(R, prog):
                        require=lambda st, ev: 'S:wake' in st and 'S:release' in st,
                        key_fn=lambda ev, f=f: '%s.K7:%s:release-and-wake' % (P, f.nname),
                        describe=lambda ev: 'unique unlock releases and wakes on every path', min_sites=1, what='exit')
-    if n < 2:
-        R.broken.append('C06.K2: expected >= 2 call sites of qrwlock::try_wake, found %d' % n)
+    if n < 1:
+        R.broken.append('C06.K2: no call site of qrwlock::try_wake left')
     # try_wake itself: writers first, else all readers
     G = K.build(R, prog, 'photon::qrwlock::try_wake')
     res = an.run(G, [an.GuardTracker(lambda k: True), an.SeenTracker([('all', lambda ev: ev.kind == 'call' and (ev.callee() or '').endswith('notify_all'))])])
